@@ -3,7 +3,7 @@ from .core import BASE_TRUST, LEAN, Problem
 
 META = {
     "category": "proof",
-    "text": "PARTIAL. Lean 4 proof that the Discard discipline makes the value pool safe (heap + free list + clients: for ALL operation sequences obeying 'discard only what you alone reference, never touch it afterwards', every read returns the value the reader was given; invariant: no address both free and live) with a counter-witness for a premature discard; every value.Discard(x) call site of lib/query and lib/value and every assignment of lib/query that writes through a parser.* value is regenerated from /repo on every run (go/ast + go/types) and checked by `decide` (all sites fresh, not used afterwards, not escaping; the value.To* conversions return value.New* results on every path; theorems ast_readonly, cells_never_overwritten, scope_closed_once, getters_return_copies: NO write into a shared syntax tree, no store into an existing (slice-shared) table cell, no scope block closed both by a function and by its callee, every Get* accessor of a stored view returns a copy; pre-finding F8 was repaired in /repo by commit 02f8662 and stays watched: a new shared write breaks ast_readonly and is reported as astwrite:<file>:<function>:<lhs>, a bad Discard as discard:<file>:<function>:<var>:<reason>, a cell overwrite as cellwrite:…, a double close as doubleclose:…, a conversion handing back its argument as conversion:value.<To*>:notFresh). TRUSTED, not proved: the step 'syntactic fact => behaviour of the running program' (callees are not analysed), sync.Pool as a free list. Cross-checked on every run: generated statements over all built-in scalar functions, operators and clauses evaluated twice (plain / WHILE / user-defined function / PREPARE+EXECUTE), syntax trees printed before and after execution, tables / cursor rows / variables read again; half of the workload processes run with the Discard-poisoning hook H2 switched on and every result cell, printed syntax tree, syntax-tree literal, variable, cursor row and re-read table cell is searched for the poison values (law poisoned_read)",
+    "text": "PARTIAL. Lean 4 proof that the Discard discipline makes the value pool safe (heap + free list + clients: for ALL operation sequences obeying 'discard only what you alone reference, never touch it afterwards', every read returns the value the reader was given; invariant: no address both free and live) with a counter-witness for a premature discard; every value.Discard(x) call site of lib/query and lib/value and every assignment of lib/query that writes through a parser.* value is regenerated from /repo on every run (go/ast + go/types) and checked by `decide` (all sites fresh, not used afterwards, not escaping; the value.To* conversions return value.New* results on every path; theorems ast_readonly, cells_never_overwritten, scope_closed_once, getters_return_copies, no_double_discard: NO write into a shared syntax tree, no store into an existing (slice-shared) table cell, no scope block closed both by a function and by its callee, every Get* accessor of a stored view returns a copy; pre-finding F8 was repaired in /repo by commit 02f8662 and stays watched: a new shared write breaks ast_readonly and is reported as astwrite:<file>:<function>:<lhs>, a bad Discard as discard:<file>:<function>:<var>:<reason>, a cell overwrite as cellwrite:…, a double close as doubleclose:…, a conversion handing back its argument as conversion:value.<To*>:notFresh). TRUSTED, not proved: the step 'syntactic fact => behaviour of the running program' (callees are not analysed), sync.Pool as a free list. Cross-checked on every run: generated statements over all built-in scalar functions, operators and clauses evaluated twice (plain / WHILE / user-defined function / PREPARE+EXECUTE), syntax trees printed before and after execution, tables / cursor rows / variables read again; half of the workload processes run with the Discard-poisoning hook H2 switched on and every result cell, printed syntax tree, syntax-tree literal, variable, cursor row and re-read table cell is searched for the poison values (law poisoned_read)",
     "design_ref": "DESIGN.md section 5, C14",
     "note": "trusted: Lean kernel (propext, Classical.choice, Quot.sound only), the extractor extract/discardfacts (conservative, syntactic), sync.Pool modelled as a free list, harness generators. Hook H2 is built (/repo 3417236, build tag verif, VERIF_POISON_DISCARD=1): in every other workload process Discard overwrites the object with a recognisable poison and never re-issues it, so a read of a discarded object is reported (law poisoned_read) the first time it happens, without waiting for the pool to re-issue the object; what H2 does not give: paths the generators never execute, and the NaN poison of a Float is recognised on values (result views, syntax-tree literals, re-read tables), not in printed text",
     "technique": "Lean 4 machine-checked proof over a heap/pool model + facts regenerated from the Go source checked by kernel evaluation + differential self-comparison (evaluate twice / read again) on the real code",
@@ -89,6 +89,16 @@ def run(run):
                 sg = "conversion:value.%s:notFresh" % m.group(1)
                 run.problems.append(Problem("direct", sg, {"what": "a value.To* conversion has a return statement that is not a value.New* call (it may hand back its argument, which callers then Discard)",
                                                            "where": unq(m.group(3))}, concrete=False, signature=sg))
+    # a value released twice on one path (Csvq.C14.no_double_discard)
+    dbl = []
+    if ok1 and dfp.exists():
+        _, _, tail = dfp.read_text().partition("def doubleDiscardFacts")
+        body = tail.split("\ndef ", 1)[0]
+        for m in AST_RE.finditer(body):
+            sg = "doublediscard:%s:%s:%s" % (m.group(1), m.group(3), unq(m.group(4)))
+            dbl.append(sg)
+            run.problems.append(Problem("direct", sg, {"what": "one value reaches value.Discard twice on one path: it enters the pool twice and the next two allocations of its type are one object",
+                                                       "site": "%s:%s" % (m.group(1), m.group(2)), "how": unq(m.group(5))}, concrete=False, signature=sg))
     ast_sites = {}
     for f in shared:
         ast_sites.setdefault("astwrite:%s:%s:%s" % (f["file"], f["fn"], f["lhs"]), []).append(f)
@@ -149,7 +159,7 @@ def run(run):
             p.detail["confirmed_dynamically"] = p.signature in confirmed
 
     extra = {
-        "cell_writes_and_double_closes": other_sites, "discard_sites": len(dfacts), "conversions_not_fresh": conv_bad, "discard_sites_outside_discipline": sorted(bad_sites),
+        "cell_writes_and_double_closes": other_sites, "discard_sites": len(dfacts), "conversions_not_fresh": conv_bad, "double_discards": dbl, "discard_sites_outside_discipline": sorted(bad_sites),
         "ast_writes_shared": sorted(ast_sites), "ast_writes_local_copy_or_fresh": len(local),
         "static_sites_confirmed_dynamically": sorted(confirmed),
     }
@@ -159,7 +169,7 @@ def run(run):
                              ["ast write %s:%d %s %s (%s)" % (f["file"], f["line"], f["fn"], f["lhs"], f["how"]) for f in (shared + local)[:2]] + run.cov["samples"]
     return run.finish(
         level="proof",
-        rule="static: every value.Discard call site of lib/query and lib/value and every assignment / copy / sort of lib/query reaching through a parser.* value, checked by kernel evaluation; dynamic: expressions generated over every scalar function of the Functions map (argument types found by probing), arithmetic, comparison, logic, CASE, IN, BETWEEN, LIKE, IS, ANY/ALL, casts, in SELECT / WHERE / GROUP BY+aggregates / DISTINCT / analytic functions / JOIN / subqueries / UNION, each evaluated twice as plain statement, WHILE body, user-defined function body and prepared statement over 240 rows at @@CPU 4, plus re-reading tables, cursor rows and variables after unrelated statements, alternately with and without Discard poisoning (a fixed corpus incl. COUNT(*) OVER, NTH_VALUE, ORDER BY / PARTITION BY on text columns, comma-separated FROM lists and functions over datetime-typed temp-view cells / variables runs first in both modes; the generated kinds include those two shapes as well, plus: rows held by a cursor / derived temporary view / variable re-read after UPDATE, DELETE, REPLACE, ALTER on the base table and the base table after ROLLBACK (laws reread:held_rows, rollback_restores); adding a column (JSON_OBJECT over column references in every order, NOW, list aggregates WITHIN GROUP, analytic list functions, generated expressions) must leave the other columns of the result unchanged (law extra_column_changes_others); a statement that reads one WITH table twice (two scalar sub-queries, outer query + sub-query, UNION ALL) after an in-place step of the first read must give for the second read what a fresh read gives (law reread:inline_table); user-defined aggregates followed by a probe of csvq's block / node pools (pairwise distinct, empty: pool_no_alias) and by a function with nested blocks compared with its results in the fresh process (repeat_eval:after_uda)); non-trivial = distinct (kind, statement form, error?, result-length class)",
+        rule="static: every value.Discard call site of lib/query and lib/value and every assignment / copy / sort of lib/query reaching through a parser.* value, checked by kernel evaluation; dynamic: expressions generated over every scalar function of the Functions map (argument types found by probing), arithmetic, comparison, logic, CASE, IN, BETWEEN, LIKE, IS, ANY/ALL, casts, in SELECT / WHERE / GROUP BY+aggregates / DISTINCT / analytic functions / JOIN / subqueries / UNION, each evaluated twice as plain statement, WHILE body, user-defined function body and prepared statement over 240 rows at @@CPU 4, plus re-reading tables, cursor rows and variables after unrelated statements, alternately with and without Discard poisoning (a fixed corpus incl. COUNT(*) OVER, NTH_VALUE, ORDER BY / PARTITION BY on text columns, comma-separated FROM lists and functions over datetime-typed temp-view cells / variables runs first in both modes; the generated kinds include those two shapes as well, plus: rows held by a cursor / derived temporary view / variable re-read after UPDATE, DELETE, REPLACE, ALTER on the base table and the base table after ROLLBACK (laws reread:held_rows, rollback_restores); adding a column (JSON_OBJECT over column references in every order, NOW, list aggregates WITHIN GROUP, analytic list functions, generated expressions) must leave the other columns of the result unchanged (law extra_column_changes_others); a statement that reads one WITH table twice (two scalar sub-queries, outer query + sub-query, UNION ALL) after an in-place step of the first read must give for the second read what a fresh read gives (law reread:inline_table); every built-in with NULL in each argument position on the main goroutine followed by a probe of the value pools (no object handed to two allocations) and, with poisoning on, by the hook's log of Discards of already discarded objects (law double_discard); DISPOSE of variables whose value object is shared with a table cell / cursor row / literal of a loop or function body / another variable, then same-type allocations and a re-read; user-defined aggregates followed by a probe of csvq's block / node pools (pairwise distinct, empty: pool_no_alias) and by a function with nested blocks compared with its results in the fresh process (repeat_eval:after_uda)); non-trivial = distinct (kind, statement form, error?, result-length class)",
         trusted_base=BASE_TRUST + [
             "extract/discardfacts: conservative syntactic facts (go/ast + go/types); callees are not analysed",
             "sync.Pool modelled as a free list (Csvq/Model/Pool.lean)"],
